@@ -27,6 +27,7 @@ independence (table PatternCache: document validation neither reads nor writes t
 import KinModel.Lemmas.C04Reach
 import KinModel.Lemmas.C04Witness
 import KinModel.Lemmas.C04Options
+import KinModel.DocValidateMode
 import KinModel.Gen.ParamStyles
 namespace KinModel.DocValidate
 
@@ -426,6 +427,61 @@ theorem history_matters_if_cache_is_read :
     validate codeTable { customRegex := true } W.dLookahead = true ∧ specVerdict { customRegex := true } W.dLookahead = .accept ∧
     validate codeTable {} W.dLookahead = false ∧ specVerdict {} W.dLookahead = .reject ∧
     validate codeTable { patDisabled := true } W.dLookahead = true := by
+  decide +kernel
+
+/-! ### History independence, second carrier: the settings record itself -/
+
+/-- the settings record is per call (table `C04OptionState`): without options `getValidationOptions` returns a new zero
+record each time, no package-level variable holds settings, and the only writes to settings fields outside the option
+constructors are the example readings set by `RequestBody.Validate` (request) and `Response.Validate` (response),
+read by `validateExampleValue` only -/
+theorem option_record_is_per_call :
+    Gen.c04OptionStateUnrecognised = [] ∧ codeOrigin.fallbackFresh = true ∧ codeOrigin.globals = 0 ∧
+    codeOrigin.perCall = true ∧
+    modeWriters Gen.c04OptionState = ["RequestBody.Validate", "Response.Validate"] ∧
+    modeWrittenBy Gen.c04OptionState "RequestBody.Validate" = some (some .req) ∧
+    modeWrittenBy Gen.c04OptionState "Response.Validate" = some (some .res) ∧
+    modeReaders Gen.c04OptionState = ["validateExampleValue"] := by
+  decide +kernel
+
+/-- **C04, history independence of the example reading.** For every run (list of settings accesses: every document,
+every traversal order), with or without options: the readings its example checks see do not depend on what earlier
+calls of the process left behind, and the call leaves nothing behind itself. -/
+theorem example_reading_history_independent (hasOpts : Bool) (evs : List Ev) (s1 s2 : Mode) :
+    (runCall codeOrigin.perCall hasOpts evs s1).1 = (runCall codeOrigin.perCall hasOpts evs s2).1 ∧
+    (runCall codeOrigin.perCall hasOpts evs s1).2 = s1 := by
+  rw [option_record_is_per_call.2.2.2.1]
+  exact ⟨runCall_perCall_fst hasOpts evs s1 s2, runCall_perCall_snd hasOpts evs s1⟩
+
+/-- a sequence of calls on one process (same or different documents, with or without options): each call sees the
+readings it sees as the first call of a fresh process -/
+theorem sequence_example_reading_independent (calls : List (Bool × List Ev)) (sh : Mode) :
+    runCalls codeOrigin.perCall calls sh = calls.map (fun c => (runCall codeOrigin.perCall c.1 c.2 .plain).1) := by
+  rw [option_record_is_per_call.2.2.2.1]; exact runCalls_perCall calls sh
+
+/-- a call without options reads every example plainly (this is the reading `accepts` fixes for document validation) -/
+theorem optionless_examples_read_plainly (evs : List Ev) (sh : Mode) :
+    ∀ m ∈ (runCall codeOrigin.perCall false evs sh).1, m = Mode.plain := by
+  rw [option_record_is_per_call.2.2.2.1]
+  intro m hm
+  simp only [runCall, Bool.false_eq_true, if_false, if_true, List.mem_map] at hm
+  obtain ⟨_, _, h⟩ := hm
+  exact h.symm
+
+/-- the hypothesis is needed: with a fallback record that lives as long as the process (the shape of the code after a
+"do not allocate a settings record per call" change) the second of two identical option-less calls reads its
+parameter example as a response — and an example that carries a writeOnly property, accepted by the first call, is
+rejected by the second; one lacking a required writeOnly property is rejected first and accepted afterwards -/
+theorem history_matters_if_record_is_shared :
+    runCalls false [(false, [.read, .set .res]), (false, [.read, .set .res])] .plain = [[.plain], [.res]] ∧
+    runCalls true [(false, [.read, .set .res]), (false, [.read, .set .res])] .plain = [[.plain], [.plain]] ∧
+    acceptsIn .plain W.aSecret (.obj ["id", "pw"]) = .yes ∧ acceptsIn .res W.aSecret (.obj ["id", "pw"]) = .no ∧
+    acceptsIn .plain W.aSecret (.obj ["id"]) = .no ∧ acceptsIn .res W.aSecret (.obj ["id"]) = .yes ∧
+    acceptsIn .req W.aSecret (.obj ["id", "pw"]) = .yes := by
+  decide +kernel
+
+/-- non-vacuity: a run with options in which a request body precedes an example check does see the request reading -/
+example : (runCall codeOrigin.perCall true [.read, .set .req, .read, .set .res, .read] .plain).1 = [.plain, .req, .res] := by
   decide +kernel
 
 /-! ### Witnesses: inside each exclusion class the code deviates (kernel-checked, replayed from corpus/C04) -/
